@@ -134,4 +134,14 @@ def c09(c):
     return c.finish()
 
 
-CHECKS = {"C09": c09, "C10": c10, "C11": c11, "C01": c01, "C02": c02, "C03": c03, "C04": c04, "C05": c05, "C07": c07, "C08": c08}
+def c06(c):
+    build_both()
+    c.mc(toy_cfgs(["point", "field"], c.tier))
+    for b in ("ark", "min"):
+        c.trace(b, "ctor", scale(c.tier, 600, 20000))
+        c.trace(b, "prog", scale(c.tier, 40, 800), 40)
+    c.trace("ark", "decrand", scale(c.tier, 800, 20000), kinds=["dec"])
+    return c.finish()
+
+
+CHECKS = {"C06": c06, "C09": c09, "C10": c10, "C11": c11, "C01": c01, "C02": c02, "C03": c03, "C04": c04, "C05": c05, "C07": c07, "C08": c08}
